@@ -22,24 +22,31 @@ CONSTANTS Now,        \* the time at which the crawl cycle runs
 
 NoOverride == -1
 
-\* expirer.py process_share, the per-lease decision ("expired-or-not according to our configured age limit")
-Expired(cfg, renew) ==
+\* expirer.py process_share, the per-lease decision ("expired-or-not according to our configured age limit"),
+\* for a cycle that runs at time `now`
+ExpiredAt(cfg, renew, now) ==
   IF cfg.mode = "age"
-    THEN renew + (IF cfg.override = NoOverride THEN Duration ELSE cfg.override) < Now
+    THEN renew + (IF cfg.override = NoOverride THEN Duration ELSE cfg.override) < now
     ELSE renew < cfg.cutoff
+Expired(cfg, renew) == ExpiredAt(cfg, renew, Now)
 
 \* `if sharetype not in self.sharetypes_to_expire: expired = False`
-LeaseRemovable(cfg, share, renew) == share.type \in cfg.types /\ Expired(cfg, renew)
+LeaseRemovableAt(cfg, share, renew, now) == share.type \in cfg.types /\ ExpiredAt(cfg, renew, now)
+LeaseRemovable(cfg, share, renew) == LeaseRemovableAt(cfg, share, renew, Now)
 
 \* the leases a share keeps after process_share (cancel_lease for every removable lease, if enabled)
-LeasesAfter(cfg, share) ==
-  IF cfg.enabled THEN {r \in share.leases : ~LeaseRemovable(cfg, share, r)} ELSE share.leases
+LeasesAfterAt(cfg, share, now) ==
+  IF cfg.enabled THEN {r \in share.leases : ~LeaseRemovableAt(cfg, share, r, now)} ELSE share.leases
+LeasesAfter(cfg, share) == LeasesAfterAt(cfg, share, Now)
 
 \* cancel_lease unlinks the container when no lease is left
-Deleted(cfg, share) == cfg.enabled /\ share.type \in cfg.types /\ LeasesAfter(cfg, share) = {}
+DeletedAt(cfg, share, now) == cfg.enabled /\ share.type \in cfg.types /\ LeasesAfterAt(cfg, share, now) = {}
+Deleted(cfg, share) == DeletedAt(cfg, share, Now)
 
 \* one crawl cycle over a set of shares: what is left
-Cycle(cfg, shares) == {[id |-> s.id, type |-> s.type, leases |-> LeasesAfter(cfg, s)] : s \in {t \in shares : ~Deleted(cfg, t)}}
+CycleAt(cfg, shares, now) ==
+  {[id |-> s.id, type |-> s.type, leases |-> LeasesAfterAt(cfg, s, now)] : s \in {t \in shares : ~DeletedAt(cfg, t, now)}}
+Cycle(cfg, shares) == CycleAt(cfg, shares, Now)
 
 \* space-recovered counters of the cycle (numbers of shares)
 Examined(cfg, shares) == Cardinality(shares)
